@@ -50,6 +50,9 @@ Definition split_by_count (cl : nat -> list nat) (F : list nat) : list (list nat
   let ranks := filter (fun r => existsb (fun u => Nat.eqb (List.length (intra u)) r) F) (seq 0 (S (List.length F))) in
   map (fun r => filter (fun u => Nat.eqb (List.length (intra u)) r) F) ranks.
 
+(* the witness of the seed's NOTES: d_a=0, d_b=1, d_one=2 <- d_a, d_two=3 <- d_a, d_b *)
+Definition ex_cl (u : nat) : list nat := match u with 2 => [0] | 3 => [0; 1] | _ => [] end.
+
 (* ---------- checker of the correspondence family (harness/c15_levels.py) ----------
    One case = one split of one generated request: its features F (feature names renamed to numbers), the in-group
    ancestor map (all ancestors, from the generated definitions), and the calculate_feature calls the real run made for
